@@ -204,6 +204,38 @@ def build_harness(ctx, tags='verif', name='snaps.test'):
     return ok
 
 
+def build_pkg_harness(ctx, pkg, srcdir, name):
+    """inject /verif/harness/<srcdir>/*.go into /repo/<pkg> and build that package's test binary"""
+    out_bin = os.path.join(ctx.tmp, name)
+    ov = os.path.join(ctx.tmp, name + '.overlay.json')
+    rep = {}
+    for f in glob.glob('%s/harness/%s/*.go' % (ROOT, srcdir)):
+        rep['%s/%s/zz_verif_%s' % (REPO, pkg, os.path.basename(f))] = f
+    json.dump({'Replace': rep}, open(ov, 'w'))
+    rc, out = sh(['go', 'test', '-c', '-vet=off', '-tags', 'verif', '-overlay', ov, '-o', out_bin, './' + pkg], cwd=REPO)
+    ok = rc == 0 and os.path.exists(out_bin)
+    ctx.add_obl('B.harness-builds ' + pkg, ok, '' if ok else out[-3000:])
+    return out_bin if ok else None
+
+
+def run_raw(ctx, binary, testname, ops, env=None, timeout=1800):
+    """run a line-in/line-out harness test; returns result lines"""
+    d = tempfile.mkdtemp(prefix='raw_', dir=ctx.tmp)
+    opsf, outf = d + '/ops.txt', d + '/impl.out'
+    open(opsf, 'w').write('\n'.join(ops) + '\n')
+    e = dict(os.environ)
+    e.update(dict(VERIF_OPS=opsf, VERIF_OUT=outf, NO_COLOR='1'))
+    if env:
+        e.update(env)
+    p = subprocess.run([binary, '-test.run', '^%s$' % testname, '-test.count=1'], env=e, cwd=d,
+                       stdout=subprocess.PIPE, stderr=subprocess.STDOUT, timeout=timeout)
+    lines = open(outf).read().split('\n') if os.path.exists(outf) else []
+    if lines and lines[-1] == '':
+        lines.pop()
+    shutil.rmtree(d, ignore_errors=True)
+    return p.returncode, lines, p.stdout.decode('utf-8', 'replace')[-1500:]
+
+
 class Line:
     """one canonical result line"""
     def __init__(self, raw):
